@@ -104,11 +104,8 @@ def w_fpair_arith(job):
         fs = [(nm, make_filter(nm, tok, meas, t)) for nm in job.get('filters', ('Size', 'Prefix', 'Position'))]
         for m in range(1, N + 1):
             for n in range(1, N + 1):
-                omin = None
-                for o in range(1, min(m, n) + 1):
-                    if classify(meas, sim_counts(meas, m, n, o), t, '>=') == 'must':
-                        omin = o
-                        break
+                from checks.setjoin import omin_must
+                omin = omin_must(meas, t, '>=', m, n)
                 if omin is None:
                     continue
                 cases += 1
